@@ -299,6 +299,11 @@ Definition finalize (tmp : dname) (i : N) (tail : list op) (s : state) : state *
     then let '(u, tr, ok) := exec s1 (rmdir_ops tmp) in (u, tr, if ok then OutOfDate else Failed)
     else fin (exec s1 (finalize_rename tmp i ++ tail))).
 
+(* NodeHost.startShard runs the snapshotter's processOrphans before the node exists,
+   and does not start the replica when it fails (call site regenerated: Gen.GenC16) *)
+Definition startup_cleans : bool :=
+  startshard_orphans_fatal && startshard_orphans_before_newnode.
+
 Definition do_cmd (ord : list dname -> list dname) (s : state) (c : cmd) : state * list op * outcome :=
   match c with
   | CSave i n => if i =? 0 then (s, [], Skipped) else fin (exec s (save_ops i n))
@@ -323,9 +328,9 @@ Definition do_cmd (ord : list dname -> list dname) (s : state) (c : cmd) : state
          end
   | CCompact i =>
     if st_rec s <=? i then (s, [], Panicked) else fin (exec s (rmdir_ops (DFinal i)))
-  | CRestart => fin (process_orphans ord s)
+  | CRestart => if startup_cleans then fin (process_orphans ord s) else (s, [], Done)
   | CCrash =>
-    seq (exec s [OCrash]) (fun s1 => fin (process_orphans ord s1))
+    seq (exec s [OCrash]) (fun s1 => if startup_cleans then fin (process_orphans ord s1) else (s1, [], Done))
   end.
 
 Fixpoint do_cmds (ord : list dname -> list dname) (s : state) (cs : list cmd) : state * list op :=
